@@ -47,7 +47,7 @@ PRIMS = ["name", "number", "string", "op", "type_comment", "soft_keyword", "fstr
          "fstring_end", "expect"]
 
 
-def build(grammar_text: str):
+def build(grammar_text: str, unreachable=None):
     from pegen.grammar_parser import GeneratedParser as GrammarParser
     from pegen.python_generator import PythonParserGenerator
     from pegen.tokenizer import Tokenizer
@@ -56,7 +56,7 @@ def build(grammar_text: str):
     if not g:
         raise SyntaxError("grammar text unreadable")
     out = io.StringIO()
-    PythonParserGenerator(g, out).generate("<gen>")
+    PythonParserGenerator(g, out, unreachable_formatting=unreachable).generate("<gen>")
     text = out.getvalue()
     ns = {k: ctor(k) for k in ("foo", "mk", "f", "g", "Node")}
     exec(compile(text, "<generated>", "exec"), ns)
@@ -70,10 +70,21 @@ def traced_class(P, cache_on: bool):
         return f
 
     def wrap(f, name, la):
+        wi = name.endswith("without_invalid")
+
         def w(self, *a):
             before = self._tokenizer.mark()
-            res = f(self, *a)
+            flag_in = self.call_invalid_rules
+            depth = getattr(self, "_wi_depth", 0)
+            if wi:
+                self._wi_depth = depth + 1
+            try:
+                res = f(self, *a)
+            finally:
+                if wi:
+                    self._wi_depth = depth
             self._events.append([name, before, bool(res), self._tokenizer.mark(), la])
+            self._flags.append([name, flag_in, self.call_invalid_rules, depth])
             return res
         return w
 
@@ -97,6 +108,7 @@ def run_one(T, source, verbose, call_invalid, limit):
     tk = Tokenizer(iter(toks))
     p = T(tk, verbose=verbose)
     p._events = []
+    p._flags = []
     p.call_invalid_rules = call_invalid
     signal.setitimer(signal.ITIMER_REAL, limit)
     base = {}
@@ -116,7 +128,7 @@ def run_one(T, source, verbose, call_invalid, limit):
     finally:
         signal.setitimer(signal.ITIMER_REAL, 0)
     base.update({"mark": tk.mark(), "fetched": len(tk._tokens), "invalid_flag": p.call_invalid_rules,
-                 "events": p._events})
+                 "events": p._events, "flags": p._flags})
     return base
 
 
@@ -146,7 +158,7 @@ def main():
         sys.stdout = io.StringIO()
         try:
             signal.setitimer(signal.ITIMER_REAL, 5.0)
-            g, P, text = build(job["grammar"])
+            g, P, text = build(job["grammar"], job.get("unreachable"))
             signal.setitimer(signal.ITIMER_REAL, 0)
         except BaseException as e:   # noqa
             signal.setitimer(signal.ITIMER_REAL, 0)
